@@ -46,6 +46,7 @@ from bitproto.errors import (
     ImportInMessageUnsupported,
     InternalError,
     InvalidArrayCap,
+    LexerError,
     MessageFieldInEnumUnsupported,
     MessageInEnumUnsupported,
     OptionInEnumUnsupported,
@@ -168,7 +169,13 @@ class Parser:
     def parse(self, filepath: str) -> Proto:
         """Parse a bitproto from given file."""
         with open(filepath) as f:
-            return self.parse_string(f.read(), filepath=filepath)
+            try:
+                content = f.read()
+            except UnicodeDecodeError as error:
+                raise LexerError(
+                    message=f"Invalid encoding, {error}", filepath=filepath
+                )
+        return self.parse_string(content, filepath=filepath)
 
     def parse_child(self, filepath: str) -> Proto:
         """Parse a child bitproto from given file.
